@@ -94,6 +94,20 @@ Theorem C05_holding_duration :
 Proof. exact storage_holding_duration. Qed.
 Print Assumptions C05_holding_duration.
 
+(* with an end level >= 0 (what the constructor accepts) the level is exactly zero there: the storage is empty at some step of every
+   such window *)
+Theorem C05_holding_duration_level_zero :
+  forall g rg p a md,
+  storage g rg p = Some a -> sp_no_simult p = false -> sp_max_dur p = Some md -> rg_T rg <> 0%nat ->
+  List.length (rg_dt rg) = rg_T rg -> sp_start p == 0 -> sp_inflow p == 0 -> 0 <= sp_end p ->
+  exists m, forall x,
+    Forall (row_ok x) (lp_rows (ap_lp a)) ->
+    (forall t, (t < rg_T rg)%nat -> nth (m + t) x 0 == 0 \/ nth (m + t) x 0 == 1) ->
+    forall i js, (i < rg_T rg)%nat -> md_js (rg_dt rg) md i = Some js ->
+      exists j, In j js /\ (i + j < rg_T rg)%nat /\ level p (rg_T rg) (rg_dt rg) x (i + j) == 0.
+Proof. exact storage_holding_duration_zero. Qed.
+Print Assumptions C05_holding_duration_level_zero.
+
 (* ... and with a start level above zero the statement is FALSE of the faithful model (known finding of the unchanged tree,
    reported as KNOWN-FINDING by the check): all rows satisfied, indicators binary, level above zero at every step of a window. *)
 Theorem C05_holding_duration_with_start_level_refuted :
